@@ -739,11 +739,15 @@ mod sync {
             pub fn new() -> Self {
                 #[cfg(any(feature="rt_tokio", feature="rt_async-std", feature="rt_smol", feature="rt_nio"))]
                 ::ctrlc::set_handler(|| {
+                    #[cfg(ohkami_verif)] crate::__verif__::sched("s1-");
                     CATCH.store(true, Ordering::SeqCst);
+                    #[cfg(ohkami_verif)] crate::__verif__::sched("s2-");
                     let waker = WAKER.swap(null_mut(), Ordering::SeqCst);
+                    #[cfg(ohkami_verif)] crate::__verif__::sched("s3-");
                     if !waker.is_null() {
                         unsafe {Box::from_raw(waker)}.wake();
                     }
+                    #[cfg(ohkami_verif)] crate::__verif__::sched("s.end");
                 }).expect("Something went wrong with Ctrl-C");
 
                 #[cfg(any(feature="rt_glommio"))]
@@ -768,12 +772,15 @@ mod sync {
 
                     #[inline]
                     fn poll(self: Pin<&mut Self>, cx: &mut Context<'_>) -> Poll<Self::Output> {
+                        #[cfg(ohkami_verif)] crate::__verif__::sched("p12-");
                         match unsafe {Pin::new_unchecked(&mut self.get_unchecked_mut().0)}.poll(cx) {
                             Poll::Ready(t) => Poll::Ready(Some(t)),
                             Poll::Pending  => if CATCH.load(Ordering::SeqCst) {
                                 crate::DEBUG!("[CtrlC::catch] Ready");
+                                #[cfg(ohkami_verif)] crate::__verif__::sched("p.ready");
                                 Poll::Ready(None)
                             } else {
+                                #[cfg(ohkami_verif)] crate::__verif__::sched("p3-");
                                 #[cfg(any(feature="rt_tokio", feature="rt_async-std", feature="rt_smol", feature="rt_nio"))] {
                                     let prev_waker = WAKER.swap(
                                         Box::into_raw(Box::new(cx.waker().clone())),
@@ -792,6 +799,7 @@ mod sync {
                                         None       => lock.push((current_id, current_waker)),
                                     }
                                 }
+                                #[cfg(ohkami_verif)] crate::__verif__::sched("p.pending");
                                 Poll::Pending
                             }
                         }
